@@ -40,9 +40,15 @@ func init() {
 	prop("C10", []string{"R-COPYFRESH", "R-MODEPROP"},
 		"the mode belongs to one Regex value: Copy never shares the engine that Longest() mutates (R-COPYFRESH); every per-search state handed out carries the engine's current mode on every path (R-MODEPROP).",
 		"that each engine honours the mode (DFA-direct and digit-prefilter paths are known to ignore it on the pinned tree - see DESIGN.md findings not armed), sub-match choice in longest mode.")
-	prop("C04", []string{"R-ITERSTATE", "R-LOOPARG"},
-		"the iterator closures keep their cursor local to one traversal (R-ITERSTATE); searches resumed at an offset hand the full haystack to the engines (never haystack[at:], and no context-dropping callee with a non-zero start), so look-behind assertions see the bytes before the resume position (R-LOOPARG).",
-		"the adjacency/advance arithmetic of the enumeration loops, limit handling, code-point advance after an empty match (known divergence: byte-wise advance), look-behind at resume positions.")
+	prop("C02", []string{"R-DISTINGUISH", "R-ASTWALK", "R-GATE", "R-LITTRUNC", "R-CANHANDLE", "R-FOLD", "R-RUNEBYTE", "R-PFOFFSET"},
+		"the span-selecting fast paths read the datum that separates patterns needing different spans (greedy vs lazy, case folding, repeat bounds: R-DISTINGUISH) and the guards that route lazy quantifiers, anchors and look-around away from engines that cannot express them traverse the whole syntax tree (R-ASTWALK); a candidate finder can skip a real (hence the leftmost) match only if its literal set does not cover every branch, which is excluded (R-GATE, R-LITTRUNC), and its positions depend on the start offset (R-PFOFFSET); a capacity-declined search is not taken for 'no match' (R-CANHANDLE); byte tables and fold variants used to locate candidates are complete (R-FOLD, R-RUNEBYTE).",
+		"priority encoding in determinisation and thread order, reverse-DFA start computation, the window estimates of the DFA+NFA strategies, Teddy bucket order - every span value itself.")
+	prop("C04", []string{"R-ITERSTATE", "R-LOOPARG", "R-RUNEADV"},
+		"the iterator closures keep their cursor local to one traversal (R-ITERSTATE); searches resumed at an offset hand the full haystack to the engines (never haystack[at:], and no context-dropping callee with a non-zero start), so look-behind assertions see the bytes before the resume position (R-LOOPARG); every match-iteration loop computes the resume position after an empty match from the bytes at that position (one rune, not one byte: R-RUNEADV).",
+		"the adjacency arithmetic of the enumeration loops (which empty matches are suppressed), limit handling, and that each search in the loop returns regexp's span.")
+	prop("C08", []string{"R-RUNEADV", "R-EXPAND", "R-FRESHRET", "R-LOOPARG", "R-RO"},
+		"the replace loops resume one rune after an empty match and search the full source (R-RUNEADV, R-LOOPARG); the template expander reads the capture-name table, parses both braces and accumulates multi-digit group numbers (R-EXPAND: what distinguishes $a/$b, ${1}0/${10}, $1/$10); the []byte Replace* results are memory allocated by the call on every path, never src, repl or memory of the compiled object (R-FRESHRET: a fresh copy when nothing matches); source, template and replacement bytes are never written (R-RO).",
+		"the template grammar's remaining cases (name character classes, leading zeros, malformed templates), which empty matches are replaced, Split's piece bookkeeping and its n cases (value-level; the n == 1 and empty-pattern defects found by probing were repaired, see known_findings.txt), and that each search returns regexp's span.")
 	prop("C05", []string{"R-RECURSION", "R-EPOCH"},
 		"every search-time recursion (call-graph cycle reachable from a search root) is guarded by a visited test-and-set gate on every path to the recursive call (R-RECURSION); the visited epoch of the backtracker is never advanced inside a start-position loop that calls the gated recursion, and every advance handles wrap-around (R-EPOCH).",
 		"the constant K and every value-dependent loop count (candidate loops of the reverse strategies, prefilter rescans); polynomial compile time. This is the weakest claim relative to the property: it decides two necessary conditions of the visited-table bound only.")
